@@ -140,11 +140,12 @@ _DIRECTIVE = re.compile(r"\s*#\s*(\w+)\s*(.*)$")
 _DEFINE = re.compile(r"([A-Za-z_]\w*)(\(([^)]*)\))?\s?(.*)$")
 
 
-def run(lines, init_defs):
+def run(lines, init_defs, headers=None, _defs=None, _chain=()):
     """Process `lines`.  Returns (active: list[bool] — whether each line is in an
     active region; directive lines are reported as False —, final macro table
-    name -> body | (params, body))."""
-    defs = dict(init_defs)
+    name -> body | (params, body)).  `headers` maps the names usable in `#include "name"` to their lines; an
+    included header is processed in place with the current macro table (a header that includes itself is Invalid)."""
+    defs = dict(init_defs) if _defs is None else _defs
     stack = []  # [parent_active, taken_now, was_taken, seen_else]
     active = []
 
@@ -204,6 +205,14 @@ def run(lines, init_defs):
         elif kw == "undef":
             if is_active():
                 defs.pop(rest, None)
+        elif kw == "include" and headers is not None:
+            if is_active():
+                im = re.fullmatch(r'"([^"]+)"', rest)
+                if not im or im.group(1) not in headers:
+                    raise Invalid("unknown header")
+                if im.group(1) in _chain:
+                    raise Invalid("header includes itself")
+                run(headers[im.group(1)], None, headers, defs, _chain + (im.group(1),))
         else:
             pass
     if stack:
